@@ -20,17 +20,19 @@ func init() {
 			"W-parts-first — in uploadBytes every CFG path on which the builder's type is (or may be) \"file\" reaches the upload of the builder's own JSON only over the err==nil edge of Get() on the future that collects the children; Get() waits for every child and hands a child's error back; every future returned by uploadBytes is waited for, attached to a parent's children, or returned; every return of writeFileChunks whose error can be nil lies after the loop that takes all tokens of the upload gate (trip count == gate capacity), on the 'nothing received' edge of a non-blocking receive from the very channel the upload goroutines report into, every upload goroutine is started under a token of that gate, and the error paths return a value that is known non-nil. " +
 			"R-bound — every reader readerForOffset returns (other than the empty reader) is wrapped by io.LimitReader whose byte bound is, as a linear expression, exactly (size of the first non-skipped part) - (offset - sizes of the skipped parts); on every feasible way out of the part-skipping loop that offset is strictly smaller than the part's size (the reader is never empty at a part boundary); the Seek into the part's data goes to exactly that in-part offset plus the part's 'offset' field, from the start. " +
 			"W-keys — the JSON keys the part writer (populateParts) and the static-set writer (SetStaticSetMembers) emit are exactly the JSON tags of the fields the readers (BytesPart; superset.Members / MergeSets / Parts) decode. " +
-			"NOT decided: byte-for-byte round-trip equality for any content, where the rolling checksum puts split points, the shape of the span tree, ReadAt/Seek arithmetic above readerForOffset, static-set spreading and merging arithmetic, behaviour of the blob store underneath, overflow of the 64-bit size arithmetic.",
+			"W-spread — in (*Builder).SetStaticSetMembers every use of the members parameter is len, an indexed element or a sub-slice handed to SetStaticSetMembers of a builder created there; leaf case: the list stored under the Members key is filled from members[i] for every i = 0..len-1 of a counted loop; spread case, with all bounds evaluated as polynomials over SSA values (phis kept as atoms, i.e. the stride and count in force after all re-assignments): exactly one sub-slice members[lo(i):hi(i)] is taken on every iteration of a counted loop i = c..N-1 whose only exit is its test (test before the body, or after it with the same test guarding the entry), lo(c) = 0, hi(i) = lo(i+1), exactly one tail members[K:] with K = lo(N); every branch condition under which the tail is emitted is, as a polynomial, a comparison of that same K with len(members) that is true whenever K < len(members) — a condition that is computed only from inputs read before a stride/count phi and does not depend on that phi is the violation 'rest test uses a stale stride', any other shape is undecided; on every CFG path the blob of each created sub-set reaches, through appends and phis, both the returned list and the list whose complete traversal produces the value stored under the MergeSets key, and the result of the recursive call over a stride that is not the leaf capacity reaches the returned list; every combination of Members/MergeSets keys that some path writes is one that a successful return of staticSet computes its result from (the reader returns Members alone when present, so a blob with both is rejected); in staticSet the loops over Members and over MergeSets visit index 0..len-1, are left early only towards a non-nil error, and every member / every recursive result reaches the list each later successful return hands back. " +
+			"NOT decided: byte-for-byte round-trip equality for any content, where the rolling checksum puts split points, the shape of the span tree, ReadAt/Seek arithmetic above readerForOffset, behaviour of the blob store underneath, overflow of the 64-bit size arithmetic; for static sets: the arithmetic of perSubset and subsetsNumber themselves (that stride*count <= len(members) so the slicing does not panic, that the rest and every leaf fit into one blob, that dropping the recursive result of the rest sub-set is harmless because rest < stride), termination and depth of the recursion, the order of the listed members.",
 		RuleDocs: map[string]string{
 			"W-cap":         "writeFileChunks: the chunk-length counter paired with (*bytes.Buffer).WriteByte; one obligation per loop back edge (bounded by a dominating comparison, or reset together with the buffer), one for the derived maximal chunk length against schema.maxBlobSize and constants.MaxBlobSize, one per uploadString call for 'payload = buffer content before Reset, ref = hash of payload'",
 			"W-parts-first": "uploadBytes: every start of the upload of the builder's own JSON (path search over the CFG with the facts type==file / Get() err==nil); (*uploadBytesFuture).Get: children joined, child error returned; every caller of uploadBytes/addBytesParts: the future is joined, attached or returned; writeFileChunks: every return classified as error-known-non-nil or success-after-drain-and-empty-error-channel",
 			"R-bound":       "readerForOffset: every returned reader (bound expression of its io.LimitReader, symbolically; in-part offset < part size on every feasible loop exit), and every Seek on the part's data",
+			"W-spread":      "SetStaticSetMembers: every use of members (len / element / sub-slice handed to a sub-set); one obligation each for the leaf traversal, the per-iteration sub-slice of the counted loop, first-slice-at-0, contiguity hi(i)=lo(i+1), rest start K=lo(N), the rest's emission condition (polynomial comparison of that K with len(members); stale-stride detection), the list behind the MergeSets key, per created sub-set 'blob reaches the returned list' and 'blob reaches the referenced list' on every path, the recursive result reaching the returned list, and per written key combination agreement with staticSet's successful returns; staticSet: per field Members/MergeSets full index range and 'kept until every successful return'",
 			"W-keys":        "writer/reader key agreement for bytes parts and static sets (go/types struct tags against map-index constants in the writer functions)",
 		},
 		Run:       runC15,
 		DesignRef: "DESIGN.md §4 C15",
-		Technique: "static analysis: dominance facts and interval reasoning on a loop counter, edge-sensitive CFG path search, symbolic (linear) evaluation of SSA integer expressions, writer/reader table agreement",
-		LevelText: "Decides structural necessary conditions only: the chunker's hard size cap cannot be bypassed by any 'do not split' continue and agrees with the declared limits; a file schema blob is uploaded only after all of its parts were stored successfully and the chunk writer reports success only after all chunk uploads were joined without error; a reader for an offset is bounded by what is left of the part after the in-part offset and positioned at in-part offset + part offset; writers and readers agree on JSON keys. Does not decide that any concrete file reads back equal, nor split points, tree shape, ReadAt arithmetic or static-set arithmetic.",
+		Technique: "static analysis: dominance facts and interval reasoning on a loop counter, edge-sensitive CFG path search, symbolic (linear) evaluation of SSA integer expressions, polynomial normal forms of slice bounds with substitution of the loop variable (interval bookkeeping), forward path exploration of append/phi webs, backward value dependence, writer/reader table agreement",
+		LevelText: "Decides structural necessary conditions only: the chunker's hard size cap cannot be bypassed by any 'do not split' continue and agrees with the declared limits; a file schema blob is uploaded only after all of its parts were stored successfully and the chunk writer reports success only after all chunk uploads were joined without error; a reader for an offset is bounded by what is left of the part after the in-part offset and positioned at in-part offset + part offset; writers and readers agree on JSON keys; the sub-slices a large member list is cut into start at 0, are contiguous, are followed by a rest that starts where the loop stopped and is emitted whenever that point lies before the end (tested with the same stride and count), every created sub-set is both returned for upload and referenced by its parent, and the reader visits every member and every sub-set and keeps what it read. Does not decide that any concrete file or directory reads back equal, nor split points, tree shape, ReadAt arithmetic, the values of the static-set stride and count, recursion depth, or member order.",
 	})
 }
 
@@ -39,6 +41,7 @@ func runC15(p *Program, r *Reporter) {
 	c15RuleWCap(p, r)
 	c15RulePartsFirst(p, r)
 	c15RuleRBound(p, r)
+	c15RuleSpread(p, r)
 	c15RuleKeys(p, r)
 }
 
@@ -2067,6 +2070,1686 @@ func c15RuleRBound(p *Program, r *Reporter) {
 		n++
 		r.Violation(rule, key+"#seek", p.Pos(fn.Pos()), "the part's data is never positioned (no Seek): in-part offset and the part's 'offset' field are ignored")
 	}
+}
+
+// ---------------------------------------------------------------------------
+// W-spread: polynomials over SSA integer values (interval bookkeeping)
+
+// c15Poly: monomial (atom names sorted and joined by "*"; "" = the constant
+// term) -> coefficient.
+type c15Poly map[string]int64
+
+func c15PolyConst(k int64) c15Poly {
+	if k == 0 {
+		return c15Poly{}
+	}
+	return c15Poly{"": k}
+}
+
+func c15PolyAtom(a string) c15Poly { return c15Poly{a: 1} }
+
+func (p c15Poly) add(q c15Poly, sign int64) c15Poly {
+	out := c15Poly{}
+	for m, c := range p {
+		out[m] = c
+	}
+	for m, c := range q {
+		out[m] += sign * c
+		if out[m] == 0 {
+			delete(out, m)
+		}
+	}
+	return out
+}
+
+func c15MonoMul(a, b string) string {
+	if a == "" {
+		return b
+	}
+	if b == "" {
+		return a
+	}
+	parts := append(strings.Split(a, "*"), strings.Split(b, "*")...)
+	sort.Strings(parts)
+	return strings.Join(parts, "*")
+}
+
+func (p c15Poly) mul(q c15Poly) c15Poly {
+	out := c15Poly{}
+	for m1, c1 := range p {
+		for m2, c2 := range q {
+			m := c15MonoMul(m1, m2)
+			out[m] += c1 * c2
+			if out[m] == 0 {
+				delete(out, m)
+			}
+		}
+	}
+	return out
+}
+
+func (p c15Poly) eq(q c15Poly) bool { return len(p.add(q, -1)) == 0 }
+
+func (p c15Poly) isConst() (int64, bool) {
+	switch len(p) {
+	case 0:
+		return 0, true
+	case 1:
+		if c, ok := p[""]; ok {
+			return c, true
+		}
+	}
+	return 0, false
+}
+
+func (p c15Poly) atoms() []string {
+	set := map[string]bool{}
+	for m := range p {
+		if m == "" {
+			continue
+		}
+		for _, a := range strings.Split(m, "*") {
+			set[a] = true
+		}
+	}
+	var out []string
+	for a := range set {
+		out = append(out, a)
+	}
+	sort.Strings(out)
+	return out
+}
+
+func (p c15Poly) has(atom string) bool {
+	for _, a := range p.atoms() {
+		if a == atom {
+			return true
+		}
+	}
+	return false
+}
+
+// subst replaces every occurrence of atom by polynomial q.
+func (p c15Poly) subst(atom string, q c15Poly) c15Poly {
+	out := c15Poly{}
+	for m, c := range p {
+		term := c15PolyConst(c)
+		if m != "" {
+			for _, a := range strings.Split(m, "*") {
+				if a == atom {
+					term = term.mul(q)
+				} else {
+					term = term.mul(c15PolyAtom(a))
+				}
+			}
+		}
+		out = out.add(term, 1)
+	}
+	return out
+}
+
+func (p c15Poly) String() string {
+	if len(p) == 0 {
+		return "0"
+	}
+	var ms []string
+	for m := range p {
+		ms = append(ms, m)
+	}
+	sort.Slice(ms, func(i, j int) bool {
+		if (ms[i] == "") != (ms[j] == "") {
+			return ms[j] == ""
+		}
+		return ms[i] < ms[j]
+	})
+	var sb strings.Builder
+	for i, m := range ms {
+		c := p[m]
+		sign := "+"
+		if c < 0 {
+			sign, c = "-", -c
+		}
+		if i > 0 || sign == "-" {
+			sb.WriteString(sign)
+		}
+		switch {
+		case m == "":
+			sb.WriteString(fmt.Sprint(c))
+		case c == 1:
+			sb.WriteString(m)
+		default:
+			sb.WriteString(fmt.Sprintf("%d*%s", c, m))
+		}
+	}
+	return sb.String()
+}
+
+// c15PolyCtx names the atoms (SSA values the evaluation does not look into).
+// len(x) of one slice value is one atom wherever it is evaluated (the length of
+// a slice value does not change).
+type c15PolyCtx struct {
+	names map[ssa.Value]string
+	vals  map[string]ssa.Value
+}
+
+func c15NewPolyCtx() *c15PolyCtx {
+	return &c15PolyCtx{map[ssa.Value]string{}, map[string]ssa.Value{}}
+}
+
+func (cx *c15PolyCtx) atomName(v ssa.Value) string {
+	if n, ok := cx.names[v]; ok {
+		return n
+	}
+	n := v.Name()
+	switch x := v.(type) {
+	case *ssa.Phi:
+		if x.Comment != "" {
+			n += "#" + x.Comment
+		}
+	case *ssa.UnOp:
+		if g, ok := x.X.(*ssa.Global); ok && x.Op == token.MUL {
+			n += "#" + g.Name()
+		}
+		// loads of one field of a struct that is only ever accessed field by
+		// field, and whose field is never stored to, are one value
+		if fa, ok := x.X.(*ssa.FieldAddr); ok && x.Op == token.MUL && c15FieldNeverWritten(fa) {
+			n = cx.atomName(originValue(fa.X)) + "." + fieldName(fa.X.Type(), fa.Field)
+		}
+	}
+	n = strings.ReplaceAll(n, "*", "")
+	cx.names[v] = n
+	cx.vals[n] = v
+	return n
+}
+
+// c15FieldNeverWritten: the struct behind fa is used only through field
+// addresses in its function, and the field fa selects is only loaded.
+func c15FieldNeverWritten(fa *ssa.FieldAddr) bool {
+	base := fa.X
+	refs := base.Referrers()
+	if refs == nil {
+		return false
+	}
+	for _, ref := range *refs {
+		switch x := ref.(type) {
+		case *ssa.DebugRef:
+		case *ssa.FieldAddr:
+			if x.Field != fa.Field {
+				continue
+			}
+			for _, u := range *x.Referrers() {
+				switch y := u.(type) {
+				case *ssa.DebugRef:
+				case *ssa.UnOp:
+					if y.Op != token.MUL {
+						return false
+					}
+				default:
+					return false
+				}
+			}
+		default:
+			return false
+		}
+	}
+	return true
+}
+
+func c15IsIntType(t types.Type) bool {
+	bt, ok := t.Underlying().(*types.Basic)
+	return ok && bt.Info()&types.IsInteger != 0
+}
+
+// c15LenArg: v is len(x) -> x.
+func c15LenArg(v ssa.Value) (ssa.Value, bool) {
+	c, ok := v.(*ssa.Call)
+	if !ok {
+		return nil, false
+	}
+	b, ok := c.Call.Value.(*ssa.Builtin)
+	if !ok || b.Name() != "len" || len(c.Call.Args) != 1 {
+		return nil, false
+	}
+	return c.Call.Args[0], true
+}
+
+func (cx *c15PolyCtx) lenAtom(x ssa.Value) string {
+	n := "len(" + cx.atomName(originValue(x)) + ")"
+	return n
+}
+
+// of evaluates integer value v as a polynomial (ok=false: too deep).
+func (cx *c15PolyCtx) of(v ssa.Value) (c15Poly, bool) {
+	var ev func(v ssa.Value, d int) (c15Poly, bool)
+	ev = func(v ssa.Value, d int) (c15Poly, bool) {
+		if d > 40 {
+			return nil, false
+		}
+		switch x := v.(type) {
+		case *ssa.Const:
+			if x.Value != nil && x.Value.Kind() == constant.Int {
+				if k, exact := constant.Int64Val(x.Value); exact {
+					return c15PolyConst(k), true
+				}
+			}
+		case *ssa.Convert:
+			if c15IsIntType(x.Type()) && c15IsIntType(x.X.Type()) {
+				return ev(x.X, d+1)
+			}
+		case *ssa.ChangeType:
+			return ev(x.X, d+1)
+		case *ssa.BinOp:
+			switch x.Op {
+			case token.ADD, token.SUB, token.MUL:
+				a, ok1 := ev(x.X, d+1)
+				b, ok2 := ev(x.Y, d+1)
+				if !ok1 || !ok2 {
+					return nil, false
+				}
+				switch x.Op {
+				case token.ADD:
+					return a.add(b, 1), true
+				case token.SUB:
+					return a.add(b, -1), true
+				}
+				out := a.mul(b)
+				for m := range out {
+					if strings.Count(m, "*") > 4 {
+						return nil, false
+					}
+				}
+				return out, true
+			}
+		case *ssa.UnOp:
+			switch x.Op {
+			case token.SUB:
+				a, ok := ev(x.X, d+1)
+				if !ok {
+					return nil, false
+				}
+				return c15Poly{}.add(a, -1), true
+			case token.MUL:
+				if o := originValue(x); o != ssa.Value(x) {
+					return ev(o, d+1)
+				}
+			}
+		case *ssa.Call:
+			if arg, ok := c15LenArg(x); ok {
+				n := cx.lenAtom(arg)
+				if _, have := cx.vals[n]; !have {
+					cx.vals[n] = x
+				}
+				return c15PolyAtom(n), true
+			}
+		}
+		return c15PolyAtom(cx.atomName(v)), true
+	}
+	return ev(v, 0)
+}
+
+// c15InNaturalLoop: block b belongs to the natural loop of header hdr.
+func c15InNaturalLoop(hdr, b *ssa.BasicBlock) bool {
+	return b == hdr || (hdr.Dominates(b) && c15Reaches(b, hdr))
+}
+
+// c15LessZero rewrites "comparison cond has truth value val" as Q < 0 over the
+// integers (ok=false for (in)equality tests and non-comparisons).
+func c15LessZero(cx *c15PolyCtx, cond ssa.Value, val bool) (c15Poly, bool) {
+	cond, val = c15StripNot(cond, val)
+	bo, ok := cond.(*ssa.BinOp)
+	if !ok || !c15IsCmp(bo.Op) {
+		return nil, false
+	}
+	x, ok1 := cx.of(bo.X)
+	y, ok2 := cx.of(bo.Y)
+	if !ok1 || !ok2 {
+		return nil, false
+	}
+	op := bo.Op
+	if !val {
+		op = map[token.Token]token.Token{token.LSS: token.GEQ, token.GEQ: token.LSS, token.LEQ: token.GTR, token.GTR: token.LEQ, token.EQL: token.NEQ, token.NEQ: token.EQL}[op]
+	}
+	P := x.add(y, -1)
+	switch op {
+	case token.LSS:
+		return P, true
+	case token.LEQ: // P <= 0  <=>  P-1 < 0
+		return P.add(c15PolyConst(1), -1), true
+	case token.GTR: // P > 0  <=>  -P < 0
+		return c15Poly{}.add(P, -1), true
+	case token.GEQ: // P >= 0  <=>  -P-1 < 0
+		return c15Poly{}.add(P, -1).add(c15PolyConst(1), -1), true
+	}
+	return nil, false
+}
+
+// c15Counted describes a loop over j = init, init+1, ... whose only regular
+// exit is one test `j + a < bound`, evaluated either before the body (in the
+// header) or after it (rotated loops, with the same test guarding the entry).
+type c15Counted struct {
+	hdr   *ssa.BasicBlock
+	j     *ssa.Phi
+	jName string
+	init  c15Poly         // value of j when the loop is entered (a constant)
+	test  *ssa.BasicBlock // the block whose If decides between staying and leaving
+	q     c15Poly         // the loop is continued iff q < 0
+	endQ  c15Poly         // first value of j for which the test fails; loop-invariant
+	exit  *ssa.BasicBlock // successor of the test block outside the loop
+}
+
+// endAt: the first value of j for which code in block use is NOT executed
+// (code in use runs for j = init .. endAt-1).
+func (lp *c15Counted) endAt(cx *c15PolyCtx, use *ssa.BasicBlock) (c15Poly, string) {
+	if !c15InNaturalLoop(lp.hdr, use) {
+		return nil, "not inside the loop"
+	}
+	if use != lp.test && lp.test.Dominates(use) {
+		return lp.endQ, "" // test first, then the body
+	}
+	if !(use == lp.test || use.Dominates(lp.test)) {
+		return nil, "the position of the body relative to the loop test is not clear"
+	}
+	// body first, then the test: iteration j+1 runs iff q(j) < 0, and iteration
+	// init must be guarded by the same test (q(init-1) < 0) on every way in
+	want := lp.q.subst(lp.jName, lp.init.add(c15PolyConst(1), -1))
+	for i, pred := range lp.hdr.Preds {
+		_ = i
+		if c15InNaturalLoop(lp.hdr, pred) {
+			continue
+		}
+		guarded := false
+		for _, f := range c15EdgeFacts(pred, lp.hdr) {
+			if g, ok := c15LessZero(cx, f.Cond, f.Val); ok && g.eq(want) {
+				guarded = true
+			}
+		}
+		if !guarded {
+			return nil, fmt.Sprintf("the loop tests after its body and the entry from block %d is not guarded by the same test: a zero-trip run is not excluded", pred.Index)
+		}
+	}
+	return lp.endQ.add(c15PolyConst(1), 1), ""
+}
+
+// c15CountedLoop recognises the counted loop of iteration variable ph.
+// terminalOK(b) says that leaving the loop to terminal block b (panic, error
+// return) does not matter to the caller.
+func c15CountedLoop(cx *c15PolyCtx, ph *ssa.Phi, terminalOK func(b *ssa.BasicBlock) bool) (*c15Counted, string) {
+	hdr := ph.Block()
+	lp := &c15Counted{hdr: hdr, j: ph, jName: cx.atomName(ph)}
+	jp := c15PolyAtom(lp.jName)
+	haveInit, haveBack := false, false
+	for i, e := range ph.Edges {
+		pred := hdr.Preds[i]
+		ep, ok := cx.of(e)
+		if !ok {
+			return nil, "an incoming value of the iteration variable is too complex"
+		}
+		if c15InNaturalLoop(hdr, pred) {
+			if !ep.eq(jp.add(c15PolyConst(1), 1)) {
+				return nil, fmt.Sprintf("the iteration variable %s becomes [%s] on a back edge, not %s+1", lp.jName, ep, lp.jName)
+			}
+			haveBack = true
+			continue
+		}
+		if _, isC := ep.isConst(); !isC || (haveInit && !ep.eq(lp.init)) {
+			return nil, fmt.Sprintf("the iteration variable %s does not start from one constant", lp.jName)
+		}
+		lp.init, haveInit = ep, true
+	}
+	if !haveInit || !haveBack {
+		return nil, fmt.Sprintf("%s is not the iteration variable of a loop", lp.jName)
+	}
+	// the one regular exit
+	for _, b := range hdr.Parent().Blocks {
+		if !c15InNaturalLoop(hdr, b) {
+			continue
+		}
+		for _, s := range b.Succs {
+			if c15InNaturalLoop(hdr, s) {
+				continue
+			}
+			if len(s.Succs) == 0 && terminalOK != nil && terminalOK(s) {
+				continue
+			}
+			if lp.test != nil {
+				return nil, fmt.Sprintf("the loop can be left from block %d and from block %d (break / return inside the body)", lp.test.Index, b.Index)
+			}
+			lp.test, lp.exit = b, s
+		}
+	}
+	if lp.test == nil {
+		return nil, "the loop has no regular exit"
+	}
+	ifi, ok := lp.test.Instrs[len(lp.test.Instrs)-1].(*ssa.If)
+	if !ok || len(lp.test.Succs) != 2 {
+		return nil, "the loop is not left through a two-way test"
+	}
+	if !c15EveryIteration(hdr, lp.test) {
+		return nil, "the loop test is not evaluated on every iteration"
+	}
+	Q, ok := c15LessZero(cx, ifi.Cond, lp.test.Succs[0] != lp.exit)
+	if !ok {
+		return nil, "the loop test is not an ordering comparison"
+	}
+	R := Q.add(jp, -1)
+	if R.has(lp.jName) {
+		return nil, "the loop test is not of the form j + a < bound"
+	}
+	lp.q = Q
+	lp.endQ = c15Poly{}.add(R, -1)
+	for _, a := range lp.endQ.atoms() {
+		if !c15LoopInvariant(cx, a, hdr) {
+			return nil, fmt.Sprintf("the loop bound depends on %s, which changes inside the loop", a)
+		}
+	}
+	return lp, ""
+}
+
+// c15LoopInvariant: the value behind atom a is not computed inside the loop of hdr.
+func c15LoopInvariant(cx *c15PolyCtx, a string, hdr *ssa.BasicBlock) bool {
+	v := cx.vals[a]
+	if v == nil {
+		return false
+	}
+	for d := 0; d < 8; d++ {
+		if arg, ok := c15LenArg(v); ok {
+			v = originValue(arg)
+			continue
+		}
+		if ld, ok := v.(*ssa.UnOp); ok && ld.Op == token.MUL {
+			if fa, ok := ld.X.(*ssa.FieldAddr); ok && c15FieldNeverWritten(fa) {
+				v = originValue(fa.X)
+				continue
+			}
+		}
+		break
+	}
+	in, ok := v.(ssa.Instruction)
+	if !ok || in.Block() == nil {
+		return true // parameter, constant, global
+	}
+	return !c15InNaturalLoop(hdr, in.Block())
+}
+
+// c15EveryIteration: every way round the loop passes block blk.
+func c15EveryIteration(hdr, blk *ssa.BasicBlock) bool {
+	if blk == hdr {
+		return true
+	}
+	if !c15InNaturalLoop(hdr, blk) {
+		return false
+	}
+	seen := map[*ssa.BasicBlock]bool{}
+	var walk func(b *ssa.BasicBlock) bool // true: hdr re-entered avoiding blk
+	walk = func(b *ssa.BasicBlock) bool {
+		for _, s := range b.Succs {
+			if s == blk || !c15InNaturalLoop(hdr, s) {
+				continue
+			}
+			if s == hdr {
+				return true
+			}
+			if !seen[s] {
+				seen[s] = true
+				if walk(s) {
+					return true
+				}
+			}
+		}
+		return false
+	}
+	return !walk(hdr)
+}
+
+// c15LoopVarsOf: the phis among the atoms of p that sit in a loop header.
+func c15LoopVarsOf(cx *c15PolyCtx, ps ...c15Poly) []*ssa.Phi {
+	var out []*ssa.Phi
+	seen := map[*ssa.Phi]bool{}
+	for _, p := range ps {
+		for _, a := range p.atoms() {
+			ph, ok := cx.vals[a].(*ssa.Phi)
+			if !ok || seen[ph] {
+				continue
+			}
+			isHdr := false
+			for _, pr := range ph.Block().Preds {
+				if c15InNaturalLoop(ph.Block(), pr) {
+					isHdr = true
+				}
+			}
+			if isHdr {
+				seen[ph] = true
+				out = append(out, ph)
+			}
+		}
+	}
+	return out
+}
+
+// c15FullRange: index value idx runs over exactly 0 .. len(slice)-1, once per
+// iteration of a counted loop, and the indexing happens on every iteration.
+func c15FullRange(cx *c15PolyCtx, ia *ssa.IndexAddr, terminalOK func(*ssa.BasicBlock) bool) (*c15Counted, string) {
+	ip, ok := cx.of(ia.Index)
+	if !ok {
+		return nil, "index too complex"
+	}
+	vars := c15LoopVarsOf(cx, ip)
+	if len(vars) != 1 {
+		return nil, fmt.Sprintf("the index [%s] is not a function of exactly one loop variable", ip)
+	}
+	lp, why := c15CountedLoop(cx, vars[0], terminalOK)
+	if lp == nil {
+		return nil, why
+	}
+	jp := c15PolyAtom(lp.jName)
+	first := ip.subst(lp.jName, lp.init)
+	step := ip.subst(lp.jName, jp.add(c15PolyConst(1), 1)).add(ip, -1)
+	end, why := lp.endAt(cx, ia.Block())
+	if why != "" {
+		return nil, why
+	}
+	last := ip.subst(lp.jName, end)
+	lenP := c15PolyAtom(cx.lenAtom(ia.X))
+	switch {
+	case !first.eq(c15Poly{}):
+		return nil, fmt.Sprintf("the first index is [%s], not 0", first)
+	case !step.eq(c15PolyConst(1)):
+		return nil, fmt.Sprintf("the index advances by [%s] per iteration, not 1", step)
+	case !last.eq(lenP):
+		return nil, fmt.Sprintf("the loop stops at index [%s], not at [%s]", last, lenP)
+	case !c15EveryIteration(lp.hdr, ia.Block()):
+		return nil, "the element is not visited on every iteration"
+	}
+	return lp, ""
+}
+
+// c15BackSlice: everything value v is computed from (operands, phi edges,
+// variables' stores, elements stored into arrays/slices it is built from).
+func c15BackSlice(v ssa.Value) map[ssa.Value]bool {
+	seen := map[ssa.Value]bool{}
+	var walk func(v ssa.Value, d int)
+	walk = func(v ssa.Value, d int) {
+		if v == nil || seen[v] || d > 80 {
+			return
+		}
+		seen[v] = true
+		switch x := v.(type) {
+		case *ssa.UnOp:
+			if x.Op == token.MUL {
+				if cell, ok := varOf(x.X); ok {
+					for _, st := range storesTo(cell) {
+						walk(st.Val, d+1)
+					}
+				}
+			}
+		case *ssa.Alloc, *ssa.MakeSlice:
+			// element stores
+			if refs := v.Referrers(); refs != nil {
+				for _, ref := range *refs {
+					ia, ok := ref.(*ssa.IndexAddr)
+					if !ok {
+						continue
+					}
+					for _, u := range *ia.Referrers() {
+						if st, ok := u.(*ssa.Store); ok && st.Addr == ssa.Value(ia) {
+							walk(st.Val, d+1)
+						}
+					}
+				}
+			}
+		}
+		if in, ok := v.(ssa.Instruction); ok {
+			for _, op := range in.Operands(nil) {
+				if *op != nil {
+					walk(*op, d+1)
+				}
+			}
+		}
+	}
+	walk(v, 0)
+	return seen
+}
+
+// ---------------------------------------------------------------------------
+// W-spread: "kept until the end" tracking
+
+// c15Tracker follows one created item (a blob, a list element, a slice of
+// results) forward over every CFG path and maintains the set H of SSA values
+// (slices) whose current run-time value contains it: append(x, ...item...) and
+// append(h, ...) / append(x, h...) for h in H, phis edge by edge. Appending is
+// the only accepted way to carry the item; the order of items is not checked.
+type c15Tracker struct {
+	isItem func(v ssa.Value) bool        // v denotes the tracked item (only while the creation was not re-executed)
+	reborn func(in ssa.Instruction) bool // the creation site is executed again: isItem values now denote another item
+}
+
+func c15IsAppend(in ssa.Instruction) (*ssa.Call, bool) {
+	c, ok := in.(*ssa.Call)
+	if !ok {
+		return nil, false
+	}
+	b, ok := c.Call.Value.(*ssa.Builtin)
+	return c, ok && b.Name() == "append" && len(c.Call.Args) == 2
+}
+
+// c15VarargElems: the values stored into the array behind `arr[:]`.
+func c15VarargElems(v ssa.Value) []ssa.Value {
+	sl, ok := v.(*ssa.Slice)
+	if !ok {
+		return nil
+	}
+	al, ok := sl.X.(*ssa.Alloc)
+	if !ok {
+		return nil
+	}
+	var out []ssa.Value
+	for _, ref := range *al.Referrers() {
+		if ia, ok := ref.(*ssa.IndexAddr); ok {
+			for _, u := range *ia.Referrers() {
+				if st, ok := u.(*ssa.Store); ok && st.Addr == ssa.Value(ia) {
+					out = append(out, st.Val)
+				}
+			}
+		}
+	}
+	return out
+}
+
+func (t *c15Tracker) run(start ssa.Instruction, at func(in ssa.Instruction, has func(ssa.Value) bool, path []int)) {
+	type hset map[ssa.Value]bool
+	keyOf := func(b *ssa.BasicBlock, h hset, live bool) string {
+		var ns []string
+		for v := range h {
+			ns = append(ns, v.Name())
+		}
+		sort.Strings(ns)
+		return fmt.Sprintf("%d|%v|%s", b.Index, live, strings.Join(ns, ","))
+	}
+	seen := map[string]bool{}
+	budget := 20000
+	var walk func(b *ssa.BasicBlock, from int, h hset, live bool, path []int)
+	walk = func(b *ssa.BasicBlock, from int, h hset, live bool, path []int) {
+		if from == 0 {
+			k := keyOf(b, h, live)
+			if seen[k] {
+				return
+			}
+			seen[k] = true
+		}
+		if budget--; budget < 0 {
+			return
+		}
+		path = append(path, b.Index)
+		cur := hset{}
+		for v := range h {
+			cur[v] = true
+		}
+		has := func(v ssa.Value) bool {
+			if cur[v] {
+				return true
+			}
+			for {
+				switch x := v.(type) {
+				case *ssa.ChangeType:
+					v = x.X
+				case *ssa.MakeInterface:
+					v = x.X
+				default:
+					return cur[v]
+				}
+				if cur[v] {
+					return true
+				}
+			}
+		}
+		for i := from; i < len(b.Instrs); i++ {
+			in := b.Instrs[i]
+			if _, isPhi := in.(*ssa.Phi); isPhi {
+				continue // set on the edge
+			}
+			if t.reborn != nil && t.reborn(in) {
+				live = false
+			}
+			at(in, has, path)
+			val, isVal := in.(ssa.Value)
+			if !isVal {
+				continue
+			}
+			contains := false
+			if ap, ok := c15IsAppend(in); ok {
+				base, extra := ap.Call.Args[0], ap.Call.Args[1]
+				if has(base) || has(extra) {
+					contains = true
+				}
+				if live {
+					if t.isItem(extra) {
+						contains = true
+					}
+					for _, e := range c15VarargElems(extra) {
+						if t.isItem(e) {
+							contains = true
+						}
+					}
+				}
+			}
+			if contains {
+				cur[val] = true
+			} else {
+				delete(cur, val)
+			}
+		}
+		for _, s := range b.Succs {
+			nh := hset{}
+			for v := range cur {
+				nh[v] = true
+			}
+			for _, in := range s.Instrs {
+				ph, ok := in.(*ssa.Phi)
+				if !ok {
+					break
+				}
+				var e ssa.Value
+				for i, pr := range s.Preds {
+					if pr == b {
+						e = ph.Edges[i]
+					}
+				}
+				if e != nil && has(e) {
+					nh[ph] = true
+				} else {
+					delete(nh, ph)
+				}
+			}
+			walk(s, 0, nh, live, path)
+		}
+	}
+	walk(start.Block(), instrIndex(start)+1, hset{}, true, nil)
+}
+
+// ---------------------------------------------------------------------------
+// W-spread: the rule
+
+func c15RuleSpread(p *Program, r *Reporter) {
+	const rule = "W-spread"
+	n := 0
+	defer func() { r.Analysed("spread_obligations", n); r.Floor(rule, 16) }()
+	n += c15SpreadWriter(p, r, rule)
+	n += c15SpreadReader(p, r, rule)
+}
+
+// c15SetFields: JSON key -> field name for superset.Members / superset.MergeSets.
+func c15SetFields(p *Program) map[string]string {
+	ssT := p.NamedType("pkg/schema", "superset")
+	st, _ := ssT.Underlying().(*types.Struct)
+	if st == nil {
+		brokenf("anchor unresolved: struct type superset")
+	}
+	out := map[string]string{}
+	for i := 0; i < st.NumFields(); i++ {
+		f := st.Field(i)
+		if f.Name() != "Members" && f.Name() != "MergeSets" {
+			continue
+		}
+		tag := c15JSONName(st.Tag(i))
+		if tag == "" {
+			tag = f.Name()
+		}
+		out[tag] = f.Name()
+	}
+	if len(out) != 2 {
+		brokenf("anchor unresolved: superset.Members / superset.MergeSets")
+	}
+	return out
+}
+
+func c15MaskName(mask int) string {
+	switch mask {
+	case 0:
+		return "none"
+	case 1:
+		return "Members"
+	case 2:
+		return "MergeSets"
+	}
+	return "Members+MergeSets"
+}
+
+var c15FieldBit = map[string]int{"Members": 1, "MergeSets": 2}
+
+// c15ReaderShapes: for every success return of staticSet, which of the fields
+// Members / MergeSets its result is computed from.
+func c15ReaderShapes(p *Program) (fn *ssa.Function, masks map[int]bool, success map[*ssa.Return]bool) {
+	fn = p.Func("pkg/schema", "", "staticSet")
+	ssT := p.NamedType("pkg/schema", "superset")
+	masks = map[int]bool{}
+	success = map[*ssa.Return]bool{}
+	for _, nr := range MaybeNilErrorReturns(fn) {
+		success[nr.Ret] = true
+	}
+	for _, ri := range Returns(fn) {
+		if !success[ri.Ret] {
+			continue
+		}
+		mask := 0
+		for v := range c15BackSlice(ri.Results[0]) {
+			if fa, ok := v.(*ssa.FieldAddr); ok && NamedOf(fa.X.Type()) == ssT {
+				mask |= c15FieldBit[fieldName(fa.X.Type(), fa.Field)]
+			}
+		}
+		masks[mask] = true
+	}
+	return
+}
+
+type c15SubSlice struct {
+	sl      *ssa.Slice
+	lo, hi  c15Poly   // hi == nil: up to the end
+	call    *ssa.Call // the call that hands the slice to a subset builder
+	builder ssa.Value // that builder (origin)
+}
+
+func c15SpreadWriter(p *Program, r *Reporter, rule string) int {
+	fn := p.Func("pkg/schema", "Builder", "SetStaticSetMembers")
+	blobFn := p.Func("pkg/schema", "Builder", "Blob")
+	key := FuncKey(fn)
+	n := 0
+	cx := c15NewPolyCtx()
+
+	var members *ssa.Parameter
+	for _, prm := range fn.Params[1:] {
+		if _, ok := prm.Type().Underlying().(*types.Slice); ok {
+			if members != nil {
+				brokenf("anchor unresolved: more than one slice parameter in %s", key)
+			}
+			members = prm
+		}
+	}
+	if members == nil {
+		brokenf("anchor unresolved: the members parameter of %s", key)
+	}
+	membersIdx := c15ParamIndex(fn, members)
+	cx.names[members] = "members"
+	cx.vals["members"] = members
+	lenName := cx.lenAtom(members)
+	lenP := c15PolyAtom(lenName)
+	isPanicBlock := func(b *ssa.BasicBlock) bool {
+		_, ok := b.Instrs[len(b.Instrs)-1].(*ssa.Panic)
+		return ok
+	}
+
+	// ---- every use of members
+	var subs []c15SubSlice
+	var elemAddrs []*ssa.IndexAddr
+	for _, ref := range *members.Referrers() {
+		switch x := ref.(type) {
+		case *ssa.DebugRef:
+		case *ssa.IndexAddr:
+			elemAddrs = append(elemAddrs, x)
+		case *ssa.Slice:
+			subs = append(subs, c15SubSlice{sl: x})
+		case *ssa.Call:
+			if _, ok := c15LenArg(x); ok {
+				continue
+			}
+			n++
+			r.Undecided(rule, key+"#members-use", p.Pos(x.Pos()), "the member list is handed to "+(CallSite{fn, x}).CalleeKey()+" as a whole: which members that covers is not tracked")
+		default:
+			n++
+			r.Undecided(rule, key+"#members-use", p.Pos(ref.Pos()), fmt.Sprintf("the member list is used by %T, a shape the interval bookkeeping does not follow", ref))
+		}
+	}
+
+	// ---- which keys are written on which path; agreement with the reader's shapes
+	keyField := c15SetFields(p)
+	rdFn, rdMasks, _ := c15ReaderShapes(p)
+	updates := map[ssa.Instruction]int{}
+	var membersUpd, mergeUpd []*ssa.MapUpdate
+	for _, b := range fn.Blocks {
+		for _, in := range b.Instrs {
+			mu, ok := in.(*ssa.MapUpdate)
+			if !ok {
+				continue
+			}
+			k, ok := ConstString(mu.Key)
+			if !ok || keyField[k] == "" {
+				continue
+			}
+			updates[in] = c15FieldBit[keyField[k]]
+			if keyField[k] == "Members" {
+				membersUpd = append(membersUpd, mu)
+			} else {
+				mergeUpd = append(mergeUpd, mu)
+			}
+		}
+	}
+	{
+		type st struct {
+			b    *ssa.BasicBlock
+			mask int
+		}
+		seen := map[st]bool{}
+		shapes := map[int]*ssa.Return{}
+		var walk func(s st)
+		walk = func(s st) {
+			if seen[s] {
+				return
+			}
+			seen[s] = true
+			mask := s.mask
+			for _, in := range s.b.Instrs {
+				mask |= updates[in]
+				if ret, ok := in.(*ssa.Return); ok && s.b != fn.Recover {
+					if _, have := shapes[mask]; !have {
+						shapes[mask] = ret
+					}
+				}
+			}
+			for _, succ := range s.b.Succs {
+				walk(st{succ, mask})
+			}
+		}
+		walk(st{fn.Blocks[0], 0})
+		var ms []int
+		for m := range shapes {
+			ms = append(ms, m)
+		}
+		sort.Ints(ms)
+		var rdNames []string
+		for m := range rdMasks {
+			rdNames = append(rdNames, c15MaskName(m))
+		}
+		sort.Strings(rdNames)
+		for _, m := range ms {
+			n++
+			construct := key + "#shape:" + c15MaskName(m)
+			handled := false
+			for rm := range rdMasks {
+				if m != 0 && rm&m == m {
+					handled = true
+				}
+			}
+			switch {
+			case m == 0:
+				r.Violation(rule, construct, p.Pos(shapes[m].Pos()), "a path returns without having stored the members either directly or as sub-sets: the static-set lists nothing")
+			case !handled:
+				r.Violation(rule, construct, p.Pos(shapes[m].Pos()), fmt.Sprintf("a path stores %s in one static-set, but no successful return of %s computes its result from all of these fields (its returns use %v): part of the members is never listed", c15MaskName(m), FuncKey(rdFn), rdNames))
+			default:
+				r.OK(rule, construct, p.Pos(shapes[m].Pos()), fmt.Sprintf("a static-set written with %s is a shape the reader lists completely (successful returns of %s use %v)", c15MaskName(m), FuncKey(rdFn), rdNames))
+			}
+		}
+	}
+
+	// ---- leaf: the value stored under the members key is built from a full traversal of members
+	for _, mu := range membersUpd {
+		n++
+		construct := key + "#leaf-members"
+		back := c15BackSlice(mu.Value)
+		var used []*ssa.IndexAddr
+		for _, ia := range elemAddrs {
+			if back[ia] {
+				used = append(used, ia)
+			}
+		}
+		switch {
+		case back[ssa.Value(members)] && len(used) == 0:
+			r.Undecided(rule, construct, p.Pos(mu.Pos()), "the directly stored member list is computed from the members parameter in a way the analysis does not follow")
+		case len(used) == 0:
+			r.Violation(rule, construct, p.Pos(mu.Pos()), "the directly stored member list is not computed from the elements of the members parameter")
+		default:
+			bad := ""
+			for _, ia := range used {
+				if _, why := c15FullRange(cx, ia, isPanicBlock); why != "" {
+					bad = why
+				}
+			}
+			r.Check(bad == "", rule, construct, p.Pos(mu.Pos()),
+				"the directly stored member list is filled from members[i] for every i in 0..len(members)-1",
+				"the loop that fills the directly stored member list does not visit every member: "+bad)
+		}
+	}
+
+	// ---- the sub-slices
+	var loops, tails []c15SubSlice
+	for _, s := range subs {
+		construct := key + "#slice"
+		if s.sl.Max != nil {
+			n++
+			r.Undecided(rule, construct, p.Pos(s.sl.Pos()), "three-index slice of members")
+			continue
+		}
+		ok := true
+		s.lo = c15Poly{}
+		if s.sl.Low != nil {
+			s.lo, ok = cx.of(s.sl.Low)
+		}
+		if ok && s.sl.High != nil {
+			s.hi, ok = cx.of(s.sl.High)
+		}
+		if !ok {
+			n++
+			r.Undecided(rule, construct, p.Pos(s.sl.Pos()), "bounds of a sub-slice of members are too complex for the interval bookkeeping")
+			continue
+		}
+		// what the slice is used for
+		bad := ""
+		for _, ref := range *s.sl.Referrers() {
+			if _, isDbg := ref.(*ssa.DebugRef); isDbg {
+				continue
+			}
+			c, isCall := ref.(*ssa.Call)
+			if !isCall || c.Call.StaticCallee() != fn || len(c.Call.Args) <= membersIdx || c.Call.Args[membersIdx] != ssa.Value(s.sl) {
+				bad = fmt.Sprintf("the sub-slice is used by %s, not handed to SetStaticSetMembers of a sub-set", ref)
+				continue
+			}
+			if s.call != nil {
+				bad = "the sub-slice is handed to more than one sub-set"
+			}
+			s.call = c
+			s.builder = originValue(c.Call.Args[0])
+		}
+		if bad == "" && s.call == nil {
+			bad = "the sub-slice is not used"
+		}
+		if bad == "" {
+			bc, isCall := s.builder.(*ssa.Call)
+			if !isCall || bc.Parent() != fn || NamedOf(bc.Type()) == nil || NamedOf(bc.Type()).Obj().Name() != "Builder" {
+				bad = "the builder that receives the sub-slice is not created in this function"
+			}
+		}
+		if bad != "" {
+			n++
+			r.Undecided(rule, construct, p.Pos(s.sl.Pos()), bad)
+			continue
+		}
+		switch {
+		case len(c15LoopVarsOf(cx, s.lo, s.hi)) > 0 && s.hi != nil:
+			loops = append(loops, s)
+		case s.hi == nil && len(c15LoopVarsOf(cx, s.lo)) == 0:
+			tails = append(tails, s)
+		default:
+			n++
+			r.Undecided(rule, construct, p.Pos(s.sl.Pos()), fmt.Sprintf("sub-slice members[%s:%s] is neither a per-iteration slice of a counted loop nor a tail members[K:]", s.lo, c15PolyOrEnd(s.hi)))
+		}
+	}
+	if len(loops) != 1 {
+		n++
+		r.Undecided(rule, key+"#slice:loop", p.Pos(fn.Pos()), fmt.Sprintf("expected exactly one per-iteration sub-slice members[lo(i):hi(i)] handed to a sub-set, found %d: the coverage of the member list cannot be established", len(loops)))
+		return n
+	}
+	ls := loops[0]
+	var lp *c15Counted
+	var jEnd c15Poly
+	{
+		n++
+		construct := key + "#slice:loop"
+		vars := c15LoopVarsOf(cx, ls.lo, ls.hi)
+		why := ""
+		if len(vars) != 1 {
+			why = fmt.Sprintf("the bounds [%s : %s] depend on %d loop variables", ls.lo, ls.hi, len(vars))
+		} else {
+			lp, why = c15CountedLoop(cx, vars[0], isPanicBlock)
+		}
+		if lp != nil {
+			for _, a := range append(ls.lo.atoms(), ls.hi.atoms()...) {
+				if a != lp.jName && !c15LoopInvariant(cx, a, lp.hdr) {
+					why = fmt.Sprintf("the bounds depend on %s, which changes inside the loop", a)
+				}
+			}
+			if why == "" && !(c15EveryIteration(lp.hdr, ls.sl.Block()) && c15EveryIteration(lp.hdr, ls.call.Block())) {
+				why = "the sub-slice is not taken and handed to a sub-set on every iteration"
+			}
+			if why == "" {
+				jEnd, why = lp.endAt(cx, ls.call.Block())
+			}
+			if why == "" {
+				if e2, w2 := lp.endAt(cx, ls.sl.Block()); w2 != "" || !e2.eq(jEnd) {
+					why = "the sub-slice is taken and handed over on different sides of the loop test"
+				}
+			}
+		}
+		if why != "" {
+			r.Undecided(rule, construct, p.Pos(ls.sl.Pos()), "the loop that cuts members into sub-sets is not a counted loop the interval bookkeeping can follow: "+why)
+			return n
+		}
+		r.OK(rule, construct, p.Pos(ls.sl.Pos()), fmt.Sprintf("members[%s : %s] is handed to a new sub-set on every iteration, %s = %s .. (%s)-1, all other operands fixed before the loop", ls.lo, ls.hi, lp.jName, lp.init, jEnd))
+	}
+	jp := c15PolyAtom(lp.jName)
+	first := ls.lo.subst(lp.jName, lp.init)
+	next := ls.lo.subst(lp.jName, jp.add(c15PolyConst(1), 1))
+	loopEnd := ls.lo.subst(lp.jName, jEnd)
+	stride := next.add(ls.lo, -1)
+	n++
+	r.Check(first.eq(c15Poly{}), rule, key+"#first-slice", p.Pos(ls.sl.Pos()),
+		"the first sub-slice starts at index 0",
+		fmt.Sprintf("the first sub-slice starts at [%s], not at 0: the members before it are in no static-set", first))
+	n++
+	r.Check(ls.hi.eq(next), rule, key+"#contiguous", p.Pos(ls.sl.Pos()),
+		fmt.Sprintf("the end of one sub-slice [%s] is, as a polynomial in the same stride and index, the start of the next one", ls.hi),
+		fmt.Sprintf("sub-slice i ends at [%s] but sub-slice i+1 starts at [%s]: consecutive sub-sets leave a gap (members lost) or overlap (members listed twice)", ls.hi, next))
+
+	// ---- the rest
+	switch len(tails) {
+	case 0:
+		n++
+		r.Undecided(rule, key+"#rest-start", p.Pos(ls.sl.Pos()), fmt.Sprintf("no sub-set receives members[%s:]: the members behind the last full sub-slice are in no static-set unless the count is an exact multiple of the stride, which is not established", loopEnd))
+	case 1:
+		ts := tails[0]
+		n++
+		r.Check(ts.lo.eq(loopEnd), rule, key+"#rest-start", p.Pos(ts.sl.Pos()),
+			fmt.Sprintf("the rest sub-set starts at [%s], the structural end of the loop's last sub-slice (same stride, same count as the loop bound)", ts.lo),
+			fmt.Sprintf("the rest sub-set starts at [%s] but the loop's last sub-slice ends at [%s]: members are lost or listed twice", ts.lo, loopEnd))
+		n++
+		c15RestTest(p, r, rule, key, cx, fn, lp, ts, lenP, lenName, members)
+	default:
+		n++
+		r.Undecided(rule, key+"#rest-start", p.Pos(tails[1].sl.Pos()), "more than one tail sub-slice members[K:]")
+	}
+
+	// ---- every created sub-set is returned and referenced by the parent
+	rets := map[*ssa.Return]ssa.Value{}
+	for _, ri := range Returns(fn) {
+		if len(ri.Results) == 1 {
+			rets[ri.Ret] = ri.Results[0]
+		}
+	}
+	// the list whose full traversal feeds the mergeSets key
+	type mergeList struct {
+		mu   *ssa.MapUpdate
+		list ssa.Value
+	}
+	var mergeLists []mergeList
+	for _, mu := range mergeUpd {
+		n++
+		construct := key + "#merge-list"
+		back := c15BackSlice(mu.Value)
+		var cands []*ssa.IndexAddr
+		for v := range back {
+			ia, ok := v.(*ssa.IndexAddr)
+			if !ok {
+				continue
+			}
+			if sl, ok := ia.X.Type().Underlying().(*types.Slice); ok {
+				if pt, ok := sl.Elem().(*types.Pointer); ok && NamedOf(pt) != nil && NamedOf(pt).Obj().Name() == "Blob" {
+					cands = append(cands, ia)
+				}
+			}
+		}
+		if len(cands) != 1 {
+			r.Undecided(rule, construct, p.Pos(mu.Pos()), fmt.Sprintf("the value stored as the sub-set list is not computed from the elements of one list of blobs (%d candidates)", len(cands)))
+			continue
+		}
+		if _, why := c15FullRange(cx, cands[0], isPanicBlock); why != "" {
+			r.Violation(rule, construct, p.Pos(mu.Pos()), "the sub-set list stored in the parent does not name every blob of the list of sub-sets: "+why)
+			continue
+		}
+		r.OK(rule, construct, p.Pos(mu.Pos()), "the sub-set list stored in the parent is computed from every element of one list of blobs")
+		mergeLists = append(mergeLists, mergeList{mu, cands[0].X})
+	}
+	for _, s := range append([]c15SubSlice{ls}, tails...) {
+		role := "rest"
+		if s.hi != nil {
+			role = "loop"
+		}
+		creation := s.builder.(*ssa.Call)
+		tr := &c15Tracker{
+			isItem: func(v ssa.Value) bool {
+				c, ok := originValue(v).(*ssa.Call)
+				return ok && c.Call.StaticCallee() == blobFn && len(c.Call.Args) == 1 && originValue(c.Call.Args[0]) == ssa.Value(creation)
+			},
+			reborn: func(in ssa.Instruction) bool { return in == ssa.Instruction(creation) },
+		}
+		badRet, badRef := "", ""
+		sawRet, sawRef := false, false
+		tr.run(creation, func(in ssa.Instruction, has func(ssa.Value) bool, path []int) {
+			if ret, ok := in.(*ssa.Return); ok {
+				sawRet = true
+				if v := rets[ret]; (v == nil || !has(v)) && badRet == "" {
+					badRet = fmt.Sprintf("on the path through blocks %v the returned list does not contain the blob of the sub-set created here", path)
+				}
+			}
+			for _, ml := range mergeLists {
+				if in == ssa.Instruction(ml.mu) {
+					sawRef = true
+					if !has(ml.list) && badRef == "" {
+						badRef = fmt.Sprintf("on the path through blocks %v the list the parent's sub-set references are computed from does not contain the blob of the sub-set created here", path)
+					}
+				}
+			}
+		})
+		n++
+		r.Check(sawRet && badRet == "", rule, key+"#subset-returned:"+role, p.Pos(creation.Pos()),
+			"on every path the blob of this sub-set is appended to the list the function returns (so the caller uploads it)",
+			"a created sub-set is not handed back to the caller: it is never uploaded while the parent (or nobody) refers to it; "+badRet)
+		n++
+		r.Check(sawRef && badRef == "", rule, key+"#subset-referenced:"+role, p.Pos(creation.Pos()),
+			"on every path the blob of this sub-set is appended to the list whose references are stored in the parent",
+			"a created sub-set is not referenced by the parent static-set: its members are never listed; "+badRef)
+	}
+	// the sub-sets a recursive call created for a stride longer than one blob
+	{
+		n++
+		construct := key + "#children-returned:loop"
+		bounded := c15StrideIsLeafCapacity(cx, stride, ls.sl.Block(), lenName)
+		callRes := ls.call
+		tr := &c15Tracker{
+			isItem: func(v ssa.Value) bool { return originValue(v) == ssa.Value(callRes) },
+			reborn: func(in ssa.Instruction) bool { return in == ssa.Instruction(callRes) },
+		}
+		bad, saw := "", false
+		tr.run(callRes, func(in ssa.Instruction, has func(ssa.Value) bool, path []int) {
+			if ret, ok := in.(*ssa.Return); ok {
+				saw = true
+				if v := rets[ret]; (v == nil || !has(v)) && bad == "" {
+					bad = fmt.Sprintf("path through blocks %v", path)
+				}
+			}
+		})
+		switch {
+		case saw && bad == "":
+			r.OK(rule, construct, p.Pos(callRes.Pos()), "the sub-sets the recursive call created for one stride are appended to the returned list on every path")
+		case bounded:
+			r.OK(rule, construct, p.Pos(callRes.Pos()), fmt.Sprintf("the stride [%s] is the leaf capacity tested on entry, so the recursive call creates no further sub-sets", stride))
+		default:
+			r.Violation(rule, construct, p.Pos(callRes.Pos()), fmt.Sprintf("the stride [%s] can exceed what one static-set holds, so the recursive call creates sub-sets of its own, but its result does not reach the returned list (%s): these blobs are never uploaded although their parent references them", stride, bad))
+		}
+	}
+	return n
+}
+
+func c15PolyOrEnd(p c15Poly) string {
+	if p == nil {
+		return ""
+	}
+	return p.String()
+}
+
+// c15StrideIsLeafCapacity: the stride is one value all of whose phi leaves are
+// loads of the global that a dominating test compares len(members) with.
+func c15StrideIsLeafCapacity(cx *c15PolyCtx, stride c15Poly, at *ssa.BasicBlock, lenName string) bool {
+	as := stride.atoms()
+	if len(as) != 1 || stride[as[0]] != 1 || len(stride) != 1 {
+		return false
+	}
+	var g *ssa.Global
+	seen := map[ssa.Value]bool{}
+	var leaves func(v ssa.Value) bool
+	leaves = func(v ssa.Value) bool {
+		if seen[v] {
+			return true
+		}
+		seen[v] = true
+		switch x := v.(type) {
+		case *ssa.Phi:
+			for _, e := range x.Edges {
+				if !leaves(e) {
+					return false
+				}
+			}
+			return true
+		case *ssa.UnOp:
+			if gl, ok := x.X.(*ssa.Global); ok && x.Op == token.MUL && (g == nil || g == gl) {
+				g = gl
+				return true
+			}
+		}
+		return false
+	}
+	if !leaves(cx.vals[as[0]]) || g == nil {
+		return false
+	}
+	for _, f := range FactsAt(at) {
+		bo, ok := f.Cond.(*ssa.BinOp)
+		if !ok || !c15IsCmp(bo.Op) {
+			continue
+		}
+		x, _ := cx.of(bo.X)
+		y, _ := cx.of(bo.Y)
+		isG := func(v ssa.Value) bool {
+			u, ok := v.(*ssa.UnOp)
+			return ok && u.Op == token.MUL && u.X == ssa.Value(g)
+		}
+		if (x.eq(c15PolyAtom(lenName)) && isG(bo.Y)) || (y.eq(c15PolyAtom(lenName)) && isG(bo.X)) {
+			return true
+		}
+	}
+	return false
+}
+
+// c15SourceKey: identity of a value for "computed from the same input" tests.
+func c15SourceKey(v ssa.Value) string {
+	switch x := v.(type) {
+	case *ssa.UnOp:
+		if g, ok := x.X.(*ssa.Global); ok && x.Op == token.MUL {
+			return "global " + g.Name()
+		}
+	case *ssa.Global:
+		return "global " + x.Name()
+	case *ssa.Parameter:
+		return "parameter " + x.Name()
+	}
+	return fmt.Sprintf("%s@%p", v.Name(), v)
+}
+
+// c15RestTest: the condition under which the rest sub-set members[K:] is
+// emitted must hold whenever K < len(members), and it must be computed from
+// the stride and count that position the rest.
+func c15RestTest(p *Program, r *Reporter, rule, key string, cx *c15PolyCtx, fn *ssa.Function, lp *c15Counted, ts c15SubSlice, lenP c15Poly, lenName string, members *ssa.Parameter) {
+	construct := key + "#rest-test"
+	site := p.Pos(ts.sl.Pos())
+	bt := ts.call.Block()
+	if !(lp.exit == bt || lp.exit.Dominates(bt)) || c15InNaturalLoop(lp.hdr, bt) {
+		r.Undecided(rule, construct, site, "the rest sub-set is not built after the loop that cuts the full sub-sets: the analysis cannot tell under which condition it is emitted")
+		return
+	}
+	type fk struct {
+		c ssa.Value
+		v bool
+	}
+	before := map[fk]bool{}
+	for _, f := range FactsAt(lp.exit) {
+		before[fk{f.Cond, f.Val}] = true
+	}
+	var guards []CondFact
+	for _, f := range FactsAt(bt) {
+		if !before[fk{f.Cond, f.Val}] {
+			guards = append(guards, f)
+		}
+	}
+	if len(guards) == 0 {
+		// unconditional: every way from the loop exit to a return must pass bt
+		seen := map[*ssa.BasicBlock]bool{}
+		var skip func(b *ssa.BasicBlock) bool
+		skip = func(b *ssa.BasicBlock) bool {
+			if b == bt || seen[b] {
+				return false
+			}
+			seen[b] = true
+			if _, ok := b.Instrs[len(b.Instrs)-1].(*ssa.Return); ok {
+				return true
+			}
+			for _, s := range b.Succs {
+				if skip(s) {
+					return true
+				}
+			}
+			return false
+		}
+		if skip(lp.exit) {
+			r.Undecided(rule, construct, site, "the rest sub-set is emitted under a condition the analysis cannot read off the dominating branches")
+			return
+		}
+		r.OK(rule, construct, site, "the rest sub-set is emitted unconditionally after the loop")
+		return
+	}
+	K := ts.lo
+	x := lenP.add(K, -1) // number of members behind the loop's last sub-slice
+	var okDetails []string
+	for _, g := range guards {
+		cond, val := c15StripNot(g.Cond, g.Val)
+		bo, isCmp := cond.(*ssa.BinOp)
+		matched := false
+		if isCmp && c15IsCmp(bo.Op) {
+			a, ok1 := cx.of(bo.X)
+			b, ok2 := cx.of(bo.Y)
+			if ok1 && ok2 {
+				D := a.add(b, -1)
+				for _, c := range []int64{1, -1} {
+					k0, isC := D.add(c15PolyConst(c).mul(x), -1).isConst()
+					if !isC {
+						continue
+					}
+					matched = true
+					// the guard reads  c*x + k0  op  0  (taken with truth value val); must hold for every x >= 1
+					holds := func(xv int64) bool { return c15CmpHolds(c*xv+k0, bo.Op, 0) == val }
+					all := holds(1) && holds(2) && holds(1<<40)
+					if bo.Op == token.EQL || bo.Op == token.NEQ {
+						root := -k0 * c // c*x + k0 == 0  <=>  x == -k0/c, c = +-1
+						if root >= 1 {
+							all = all && holds(root)
+						}
+					}
+					if !all {
+						bad := int64(1)
+						for _, xv := range []int64{1, 2, -k0 * c, 1 << 40} {
+							if xv >= 1 && !holds(xv) {
+								bad = xv
+								break
+							}
+						}
+						r.Violation(rule, construct, site, fmt.Sprintf("the rest sub-set members[%s:] is emitted only where (%s %s %s) is %v; with %d member(s) behind the last full sub-slice (len(members) - (%s) = %d) that is not the case: these members are in no static-set", K, a, bo.Op, b, val, bad, K, bad))
+						return
+					}
+					okDetails = append(okDetails, fmt.Sprintf("(%s %s %s) is %v", a, bo.Op, b, val))
+					break
+				}
+			}
+		}
+		if matched {
+			continue
+		}
+		// not the structural K < len test: which values is it computed from?
+		slice := c15BackSlice(g.Cond)
+		keys := map[string]bool{}
+		for v := range slice {
+			if _, isC := v.(*ssa.Const); isC {
+				continue
+			}
+			if v == ssa.Value(members) {
+				continue
+			}
+			if arg, ok := c15LenArg(v); ok && originValue(arg) == ssa.Value(members) {
+				continue
+			}
+			keys[c15SourceKey(v)] = true
+		}
+		var missing []string
+		for _, a := range K.atoms() {
+			if a == lenName {
+				continue
+			}
+			if v := cx.vals[a]; v != nil && !slice[v] {
+				missing = append(missing, a)
+			}
+		}
+		if len(missing) == 0 {
+			r.Undecided(rule, construct, site, fmt.Sprintf("the condition for emitting the rest sub-set depends on the stride and count of the slicing but is not a comparison of [%s] with len(members): whether it holds whenever members are left over is arithmetic the analysis does not do", K))
+			return
+		}
+		// "stale": the condition is a function of values that were all available
+		// before the missing stride/count was re-assigned (no phi, no call in its
+		// computation), and it shares an input with that stride/count.
+		isInput := func(v ssa.Value) bool {
+			if _, isC := v.(*ssa.Const); isC {
+				return false
+			}
+			if v == ssa.Value(members) {
+				return false
+			}
+			if arg, ok := c15LenArg(v); ok && originValue(arg) == ssa.Value(members) {
+				return false
+			}
+			switch x := v.(type) {
+			case *ssa.Parameter:
+				return true
+			case *ssa.UnOp:
+				_, isG := x.X.(*ssa.Global)
+				return isG && x.Op == token.MUL
+			}
+			return false
+		}
+		pure := true
+		for v := range slice {
+			switch x := v.(type) {
+			case *ssa.Phi:
+				pure = false
+			case *ssa.Call:
+				if _, isLen := c15LenArg(x); !isLen {
+					pure = false
+				}
+			}
+		}
+		var stale []string
+		for _, a := range missing {
+			ph, isPhi := cx.vals[a].(*ssa.Phi)
+			if !isPhi || !pure {
+				continue
+			}
+			distinct := map[ssa.Value]bool{}
+			for _, e := range ph.Edges {
+				distinct[e] = true
+			}
+			if len(distinct) < 2 {
+				continue
+			}
+			shared := map[string]bool{}
+			for v := range c15BackSlice(ph) {
+				if isInput(v) && keys[c15SourceKey(v)] {
+					shared[c15SourceKey(v)] = true
+				}
+			}
+			for k := range shared {
+				stale = append(stale, fmt.Sprintf("%s (computed from %s among others, then re-assigned)", a, k))
+			}
+		}
+		if len(stale) > 0 {
+			sort.Strings(stale)
+			r.Violation(rule, construct, site, fmt.Sprintf("rest test uses a stale stride: the rest sub-set members[%s:] is emitted under a condition that is computed only from inputs read before the stride/count were final and does not depend on %s; where a phi takes its other value the test no longer tells whether members are left behind [%s]: the last members of a large directory are in no static-set", K, strings.Join(stale, ", "), K))
+			return
+		}
+		r.Undecided(rule, construct, site, fmt.Sprintf("the condition for emitting the rest sub-set does not depend on %v, which position the rest [%s]: the analysis cannot relate it to the slicing", missing, K))
+		return
+	}
+	r.OK(rule, construct, site, fmt.Sprintf("the rest sub-set members[%s:] is emitted where %s, which holds whenever [%s] < len(members): same stride and count as the slicing", K, strings.Join(okDetails, " and "), K))
+}
+
+// c15SpreadReader: staticSet visits every element of Members / MergeSets and
+// keeps every member / every recursive result until each successful return.
+func c15SpreadReader(p *Program, r *Reporter, rule string) int {
+	fn, _, success := c15ReaderShapes(p)
+	ssT := p.NamedType("pkg/schema", "superset")
+	key := FuncKey(fn)
+	cx := c15NewPolyCtx()
+	n := 0
+	rets := map[*ssa.Return]ssa.Value{}
+	for _, ri := range Returns(fn) {
+		if success[ri.Ret] {
+			rets[ri.Ret] = ri.Results[0]
+		}
+	}
+	terminalOK := func(b *ssa.BasicBlock) bool {
+		switch x := b.Instrs[len(b.Instrs)-1].(type) {
+		case *ssa.Panic:
+			return true
+		case *ssa.Return:
+			return !success[x]
+		}
+		return false
+	}
+	found := map[string]int{}
+	for _, b := range fn.Blocks {
+		for _, in := range b.Instrs {
+			ia, ok := in.(*ssa.IndexAddr)
+			if !ok {
+				continue
+			}
+			ld, ok := ia.X.(*ssa.UnOp)
+			if !ok || ld.Op != token.MUL {
+				continue
+			}
+			fa, ok := ld.X.(*ssa.FieldAddr)
+			if !ok || NamedOf(fa.X.Type()) != ssT {
+				continue
+			}
+			field := fieldName(fa.X.Type(), fa.Field)
+			if c15FieldBit[field] == 0 {
+				continue
+			}
+			found[field]++
+			n++
+			_, why := c15FullRange(cx, ia, terminalOK)
+			r.Check(why == "", rule, key+"#range:"+field, p.Pos(ia.Pos()),
+				"every element of "+field+" (index 0 .. len-1) is visited; the loop is left early only to fail",
+				"the loop over "+field+" does not visit every element before a successful return: "+why)
+			// the item to keep
+			var elems []ssa.Value
+			for _, ref := range *ia.Referrers() {
+				if u, ok := ref.(*ssa.UnOp); ok && u.Op == token.MUL {
+					elems = append(elems, u)
+				}
+			}
+			isElem := func(v ssa.Value) bool {
+				o := originValue(v)
+				for _, e := range elems {
+					if o == e || v == e {
+						return true
+					}
+				}
+				return false
+			}
+			n++
+			construct := key + "#kept:" + field
+			var start ssa.Instruction
+			var tr *c15Tracker
+			if field == "Members" {
+				if len(elems) != 1 {
+					r.Undecided(rule, construct, p.Pos(ia.Pos()), "the element is not loaded exactly once")
+					continue
+				}
+				start = elems[0].(ssa.Instruction)
+				tr = &c15Tracker{isItem: isElem, reborn: func(in ssa.Instruction) bool { return in == start }}
+			} else {
+				var rec *ssa.Call
+				for _, c := range CallsIn(fn, false) {
+					if c.Callee() != fn || c.Value() == nil {
+						continue
+					}
+					for _, a := range c.Args() {
+						if isElem(a) {
+							rec = c.Value()
+						}
+					}
+				}
+				if rec == nil {
+					r.Violation(rule, construct, p.Pos(ia.Pos()), "the sub-sets named by MergeSets are not read recursively: a directory spread over sub-sets lists no members")
+					continue
+				}
+				var res ssa.Value
+				for _, ref := range *rec.Referrers() {
+					if ex, ok := ref.(*ssa.Extract); ok && ex.Index == 0 {
+						res = ex
+					}
+				}
+				if res == nil {
+					r.Violation(rule, construct, p.Pos(rec.Pos()), "the members a sub-set yields are discarded")
+					continue
+				}
+				start = rec
+				tr = &c15Tracker{isItem: func(v ssa.Value) bool { return v == res }, reborn: func(in ssa.Instruction) bool { return in == ssa.Instruction(rec) }}
+			}
+			bad, saw := "", false
+			tr.run(start, func(in ssa.Instruction, has func(ssa.Value) bool, path []int) {
+				ret, ok := in.(*ssa.Return)
+				if !ok || !success[ret] {
+					return
+				}
+				saw = true
+				if !has(rets[ret]) && bad == "" {
+					bad = fmt.Sprintf("path through blocks %v", path)
+				}
+			})
+			what := map[string]string{"Members": "every member read from the blob", "MergeSets": "the members every sub-set yields"}[field]
+			r.Check(saw && bad == "", rule, construct, p.Pos(ia.Pos()),
+				what+" is appended to the list that every later successful return hands back",
+				what+" does not reach the returned list on every successful path ("+bad+"): the directory lists fewer members than were written")
+		}
+	}
+	for _, f := range []string{"Members", "MergeSets"} {
+		if found[f] == 0 {
+			n++
+			r.Undecided(rule, key+"#range:"+f, p.Pos(fn.Pos()), "no indexed traversal of superset."+f+" in the static-set reader")
+		}
+	}
+	return n
 }
 
 // ---------------------------------------------------------------------------
